@@ -497,6 +497,24 @@ class HyperWorld(World):
                 for uu in (u + h * d, u - h * d, u):
                     tw._Set_solutions(tw.problemType, uu.copy())
                     Ws.append(float(tw._Calc_W()))
+                # the same deformed body turned as a whole: x' = Q (X + u)
+                dim = self.dim
+                X = np.asarray(tw.mesh.coord)[:, :dim]
+                th = float(rng.uniform(0.2, 2.5))
+                Q = np.eye(dim)
+                Q[:2, :2] = [[np.cos(th), -np.sin(th)], [np.sin(th), np.cos(th)]]
+                if dim == 3:
+                    ph = float(rng.uniform(0.2, 2.5))
+                    Q2 = np.eye(3)
+                    Q2[1:, 1:] = [[np.cos(ph), -np.sin(ph)], [np.sin(ph), np.cos(ph)]]
+                    Q = Q2 @ Q
+                U = u.reshape(-1, dim)
+                ur = ((X + U) @ Q.T - X).ravel()
+                tw._Set_solutions(tw.problemType, ur.copy())
+                Wr = float(tw._Calc_W())
+                setattr(tw, self.TRIAL_ATTR, ur.copy())
+                tw.Need_Update()
+                Rr = -tw.Assembly(tw.problemType)[3].toarray().ravel()
         except SutError as e:
             if isinstance(e.exc, AssertionError):
                 return "rejected"
@@ -511,6 +529,16 @@ class HyperWorld(World):
             raise Violation("internal-force-not-derivative-of-energy", f"[{self.cfg['params']['law']}] R_int(u).d = {an:.8e}, central difference of the stored energy along d = {fd:.8e} (scale {scale:.3e}, W = {Ws[2]:.3e})")
         ctx.checked()
         ctx.probe("energy_gradient_checked")
+        # objectivity: the stored energy does not see the rotation, the internal forces turn with the body
+        wscale = max(abs(Ws[2]), 1e-300)
+        if np.isfinite(Wr) and np.all(np.isfinite(Rr)):
+            if not abs(Wr - Ws[2]) <= 1e-9 * wscale + 1e-13 * float(np.abs(Rint) @ np.abs(u)):
+                raise Violation("energy-changed-by-rigid-rotation", f"[{self.cfg['params']['law']}] W = {Ws[2]:.12e} for the deformed body, {Wr:.12e} for the same body turned as a whole")
+            Rq = (Rint.reshape(-1, self.dim) @ Q.T).ravel()
+            if not refs.maxabs(Rr - Rq) <= 1e-8 * max(refs.maxabs(Rint), 1e-300) + 1e-12 * wscale:
+                raise Violation("internal-force-not-objective", f"[{self.cfg['params']['law']}] internal forces of the turned body differ from the turned internal forces by {refs.maxabs(Rr - Rq):.3e} (scale {refs.maxabs(Rint):.3e})")
+            ctx.checked()
+            ctx.probe("objectivity_checked")
         return "ok"
 
     def _W_of(self, u):
